@@ -496,6 +496,27 @@ def bulk_check(ctx):
                     rec.violation("C09:bulk:frame-shrink-differs", start=s, column=c, columns=cols, got=g)
 
 
+    # and through the table object itself (its HED column is the annotation column)
+    from hed.models.tabular_input import TabularInput
+    try:
+        tab = TabularInput(pd.DataFrame({"onset": [str(i) for i in range(len(valid))], "HED": list(valid)}))
+        with warnings.catch_warnings():
+            warnings.simplefilter("ignore")
+            tab.expand_defs(env.schema, env.dd)
+            exp_cells = list(tab.dataframe["HED"])
+            tab.shrink_defs(env.schema)
+            shr_cells = list(tab.dataframe["HED"])
+        for s, e, g in zip(valid, exp_cells, shr_cells):
+            rec.n("evaluations")
+            rec.n("distinct_nontrivial")
+            if canon(to_tree(e)) != canon(ref_expand(to_tree(s))):
+                rec.violation("C09:bulk:table-object-expand-differs", start=s, got=e)
+            elif canon(to_tree(g)) != canon(ref_shrink(ref_expand(to_tree(s)))):
+                rec.violation("C09:bulk:table-object-shrink-differs", start=s, got=g)
+    except Exception as e:
+        rec.violation("C09:bulk:table-object-raises:" + type(e).__name__, error=repr(e)[:200])
+
+
 def run(ctx):
     depth = ctx.pick(4, 6)
     ctx.rec.notes["bounds"] = {"history_depth": depth, "starts": STARTS, "ops": OPS, "definitions": DEFS,
